@@ -35,6 +35,9 @@ CHECKS = {
  'C19': dict(technique='Coq refinement proofs for the object stack (finished objects never move or change; top object = bytes appended; writes inside the segment) and the VLO (contents = appended minus shortened; length <= allocation), an executable faithful hash table model using the expressions regenerated from the sources; differential run of random operation sequences on the real C and C++ containers against the extracted models',
              text='Theorems: C19_objstack (all operation sequences, by induction, via the invariant oinv and the abstraction oabs), C19_objstack_in_bounds, C19_vlo. The hash table model (probe sequence, reservation, re-use of deleted slots, expansion; expressions from Generated.v) is tied by correspondence on 750 sequences per run with colliding hash functions; its refinement proof is in progress (HashTabProofs.v).',
              design='6 C19'),
+ 'C10': dict(technique='Coq proof that the order-faithful model of yaep_read_grammar returns 0 iff no documented defect is present and that a nonzero code names a present defect (ok_iff_well_formed, code_names_defect); differential run of the implementation against the extracted deciders on grammars with injected defects',
+             text='Theorems: C10_ok_iff and C10_code_names_defect for all terminal lists, rule lists and strictness values (case analysis along the checks, induction over the lists). Correspondence: impl = 0 <-> well_formed_b; impl = c -> defect_b c; error code and message recorded; a following parse is refused after a failure. Partial: the fixpoint computations (productive, reachable, nullable, loops) are modelled as the C loops compute them; their equivalence with the semantic notions is future work.',
+             design='6 C10'),
  'C14': dict(technique='Coq refinement theorem for the API object model (objects_independent: the results seen on one object are those of its own sub-history) + differential run of random multi-object histories against the extracted model and against fresh-object replays',
              text='Theorems: C14_objects_independent, C14_error_state over all histories (induction on the call list). Correspondence: every setter / definition / error-code / parse call of a random history over 1-3 live objects returns what the model prescribes; every successful parse equals the same parse on a fresh object in a fresh process; no sanitizer report, no leak after everything is freed (LeakSanitizer), no double free in the tracked tree memory.',
              design='6 C14'),
